@@ -15,6 +15,7 @@ from vlib.core import Outcome, Scratch
 
 def setup() -> int:
     t0 = time.time()
+    core.regenerate()
     bad = core.grep_gate()
     if bad:
         print("forbidden vernacular:\n" + "\n".join(bad))
@@ -39,6 +40,16 @@ def run_check(prop: str, tier: str) -> int:
         ok, log = core.coq_make([target])
         out.checker_cmd = f"make -C coq {target} (coq_makefile, full .vo) && coqc Props/{prop}.v (Print Assumptions)"
         out.oblige(f"build:{target}", "coq-build", ok, log)
+        for g in core.gen_modules_for(prop):
+            err = core.REGEN_ERRORS.get(g)
+            out.oblige(f"py2v:{g} regenerated from /repo", "translation", err is None, err or "")
+        if core.gen_modules_for(prop):
+            out.trusted.append("tools/py2v translator + signature table (regenerates coq/Gen from /repo on every run; "
+                               "equivalence with the hand-written model is a checked lemma)")
+        if not ok:
+            # keep the executable models available to the correspondence / search even though a proof broke
+            models = [f[:-2] + ".vo" for f in core.coq_sources() if f.startswith(("Base/", "Model/"))]
+            core.coq_make(models, keep_going=True)
         # 2. grep gate
         bad = core.grep_gate()
         out.oblige("grep-gate:no Admitted/Axiom/Parameter/unsafe flags", "hygiene", not bad, "\n".join(bad))
